@@ -8,7 +8,7 @@ import re
 from .. import anchors as A
 from ..cfg import all_stmts
 from ..effects import func_writes, stmt_calls
-from ..metainterp import HostFn, HostInterp, Instance, Raised, Record
+from ..metainterp import HostFn, HostInterp, Instance, OwnObject, Raised, Record
 from ..model import AnalysisError, call_name, dotted, is_self_attr, parent_map, short, src, str_value
 from .common import cfg_of, recv_name
 
@@ -1973,6 +1973,10 @@ def call_without_arguments(ctx):
 
 
 # ---------------------------------------------------------------------------------------- combination against combination
+class _Written(OwnObject):
+    """a member type as written at one place: compares and hashes by what it denotes, is its own object"""
+
+
 def combination_against_combination(ctx):
     """A union compared with another union (and an intersection with another intersection): the order hooks are
     interpreted on combinations of pairwise unrelated classes, with the order function dispatching as the package's
@@ -1997,7 +2001,10 @@ def combination_against_combination(ctx):
             """a type made by the forwarding metaclass from a handler object"""
 
             def __init__(self, members):
-                self.members = tuple(members)
+                # every combination holds its *own* member objects: a member such as list[int] or type[int] is a
+                # new object each time it is written - equal to, but not identical with, the one in the other
+                # combination (a hook that recognises a shared member by identity only is wrong for those)
+                self.members = tuple(_Written(m) for m in members)
                 h = Instance(c.name, raw)
                 h.__dict__.update(types=self.members, __args__=self.members)
                 self._handler = h
